@@ -10,7 +10,7 @@
    [is_legacy v = false] covers Fixed and Ideal. *)
 From Coq Require Import NArith List Bool.
 From RV Require Import Manager.ReloadModel Manager.ReloadProofs.
-From RV Require Rib.RibModel E2e.E2eModel E2e.E2eProofs Bgp.BgpSessionModel Bgp.BgpSessionProofs.
+From RV Require Rib.RibModel E2e.E2eModel E2e.E2eProofs Bgp.BgpSessionModel Bgp.BgpSessionProofs Ingress.IngressModel Pipe.PipeModel.
 Import ListNotations.
 Local Open Scope N_scope.
 
@@ -322,3 +322,142 @@ Example C13_example :
                  AReconf KUnit (u 1); AReconf KUnit (u 2); AReconf KUnit (2, Some 0);
                  AReconf KUnit (2, Some 1); AReconf KUnit (u 3)])).
 Proof. vm_compute. split; [reflexivity|]. split; [reflexivity|]. do 2 eexists. repeat split. do 2 eexists. split; reflexivity. Qed.
+
+(* ---- an ingress unit that a reload takes out of the configuration and one that a reload puts back (E2e/E2eModel.v,
+   third part: istate / i_step; tied to the code by the `e2e` engine: ops J j / JL u) ----
+   The pipeline has two bmp-tcp-in units, `bmp-in` (router addresses 0..3) and `bmp-in2` (4..7), which every RIB unit
+   sources. [IIngress b] = the operator takes [units.bmp-in] out of the file / puts it back, effective with the next
+   [IE EReload]: the manager terminates the running unit - every connection of it ends - or starts a NEW unit.
+   [is_run] = a bmp-in unit runs, [is_want] = the file has one, [is_gen] = bmp-in units started before the one that
+   runs; the session of address k at incarnation g has the key k + 8 g ([i_session]); [i_children st rid] = the
+   ingress ids registered under router id rid (ids_for_parent); [i_rib_lookup st key] = what unit `rib` reports for
+   one (family, prefix, ingress id). *)
+
+(* every record the RIB holds under an ingress id registered under a router that is connected to the unit which
+   the reload takes out is reported withdrawn afterwards, with the attributes it had (the statement seeded C03-b1 breaks:
+   read_from_router's 'gate terminated' exit skipped the clean-up) ... *)
+Theorem C13_removed_unit_withdraws_its_routes : forall st k rid s id key,
+  E2eModel.is_run st = true -> E2eModel.is_want st = false ->
+  (k < 4)%N -> E2eModel.i_session st (k + 8 * E2eModel.is_gen st)%N = Some (rid, s) -> In id (E2eModel.i_children st rid) ->
+  RibModel.k_mui key = id -> (RibModel.k_fam key < 4)%N ->
+  E2eModel.i_rib_lookup (E2eModel.i_step false st (E2eModel.IE E2eModel.EReload)) key =
+  E2eModel.withdrawn_of (E2eModel.i_rib_lookup st key).
+Proof. exact E2eProofs.removed_unit_withdraws_its_routes_std. Qed.
+Print Assumptions C13_removed_unit_withdraws_its_routes.
+
+(* ... and nothing else changes: a record whose ingress id is not registered under one of those routers is reported
+   as before, the sessions of the other ingress unit are what they were, the register is untouched *)
+Theorem C13_removal_spares_other_ingresses : forall st,
+  E2eModel.is_run st = true -> E2eModel.is_want st = false ->
+  let st' := E2eModel.i_step false st (E2eModel.IE E2eModel.EReload) in
+  (forall key,
+     (forall k rid s, (k < 4)%N -> E2eModel.i_session st (k + 8 * E2eModel.is_gen st)%N = Some (rid, s) ->
+                      ~ In (RibModel.k_mui key) (E2eModel.i_children st rid)) ->
+     E2eModel.i_rib_lookup st' key = E2eModel.i_rib_lookup st key) /\
+  (forall k, (4 <= k < 8)%N -> E2eModel.i_session st' k = E2eModel.i_session st k) /\
+  (forall rid, E2eModel.i_children st' rid = E2eModel.i_children st rid).
+Proof. exact E2eProofs.removal_spares_other_ingresses_std. Qed.
+Print Assumptions C13_removal_spares_other_ingresses.
+
+(* exactly the difference: what the removal does to a RIB unit that lives through the reload - `rib`, and a second rib
+   unit of unchanged type - is ONE bulk withdrawal of the ids registered under the routers that were connected *)
+Theorem C13_removal_is_one_bulk_withdrawal : forall st,
+  E2eModel.is_run st = true -> E2eModel.is_want st = false ->
+  let st' := E2eModel.i_step false st (E2eModel.IE E2eModel.EReload) in
+  let ids := E2eModel.removed_ids (E2eModel.es_w (E2eModel.is_e st))
+               (map (E2eModel.src_key (E2eModel.is_gen st)) E2eModel.unit1_addrs) in
+  E2eModel.ru_rib (E2eModel.es_rib (E2eModel.is_e st')) =
+    RibModel.rib_apply (E2eModel.ru_rib (E2eModel.es_rib (E2eModel.is_e st))) (RibModel.UWithdrawBulk ids) /\
+  E2eModel.ru_filter (E2eModel.es_rib (E2eModel.is_e st')) = E2eModel.ru_filter (E2eModel.es_rib (E2eModel.is_e st)) /\
+  forall r, E2eModel.es_rib2 (E2eModel.is_e st) = Some r -> E2eModel.es_rib2kind (E2eModel.is_e st) = 1%N ->
+            E2eModel.ef_rib2 (E2eModel.es_file (E2eModel.is_e st)) = 1%N ->
+    E2eModel.es_rib2 (E2eModel.is_e st') =
+    Some (E2eModel.MkRunit (E2eModel.ru_filter r) (E2eModel.ru_born r) (RibModel.rib_apply (E2eModel.ru_rib r) (RibModel.UWithdrawBulk ids))).
+Proof. exact E2eProofs.removal_is_one_bulk_withdrawal_std. Qed.
+Print Assumptions C13_removal_is_one_bulk_withdrawal.
+
+(* the unit is gone: no session of any of its routers is left, nothing answers at its router list *)
+Theorem C13_removal_ends_its_sessions : forall st,
+  E2eModel.is_run st = true -> E2eModel.is_want st = false ->
+  let st' := E2eModel.i_step false st (E2eModel.IE E2eModel.EReload) in
+  E2eModel.is_run st' = false /\ E2eModel.i_listed st' 0 = None /\
+  forall k, (k < 4)%N -> E2eModel.i_session st' (k + 8 * E2eModel.is_gen st)%N = None.
+Proof. exact E2eProofs.removal_ends_its_sessions_std. Qed.
+Print Assumptions C13_removal_ends_its_sessions.
+
+(* over ALL histories of traffic, edits and reloads (any number of removals and returns): while no bmp-in unit runs no
+   router of bmp-in has a session, of whatever incarnation; and a session there is belongs to the unit that runs *)
+Theorem C13_no_unit_no_sessions : forall s0 n0 h k g,
+  let st := E2eModel.i_run false (E2eModel.i_init s0 n0) h in
+  (k < 4)%N ->
+  (E2eModel.is_run st = false -> E2eModel.i_session st (k + 8 * g)%N = None) /\
+  (E2eModel.i_session st (k + 8 * g)%N <> None -> E2eModel.is_run st = true /\ g = E2eModel.is_gen st).
+Proof. exact E2eProofs.no_unit_no_sessions_std. Qed.
+Print Assumptions C13_no_unit_no_sessions.
+
+(* the reload that puts the unit back starts a NEW unit: it registers an ingress id of its own (the register's next),
+   so its routers are looked up under another parent; nothing else moves - the RIB reports what it reported (the routes
+   of the earlier unit's sessions stay withdrawn), the other sessions and the register's entries are what they were *)
+Theorem C13_added_unit_is_a_new_parent : forall lg st,
+  E2eModel.is_run st = false -> E2eModel.is_want st = true ->
+  let st' := E2eModel.i_step lg st (E2eModel.IE E2eModel.EReload) in
+  E2eModel.is_run st' = true /\ E2eModel.is_gen st' = (E2eModel.is_gen st + 1)%N /\
+  E2eModel.is_uid st' = IngressModel.serial (PipeModel.w_reg (E2eModel.es_w (E2eModel.is_e st))) /\
+  (forall key, E2eModel.i_rib_lookup st' key = E2eModel.i_rib_lookup st key) /\
+  (forall key, E2eModel.i_session st' key = E2eModel.i_session st key) /\
+  (forall rid, E2eModel.i_children st' rid = E2eModel.i_children st rid).
+Proof. exact E2eProofs.added_unit_is_a_new_parent_std. Qed.
+Print Assumptions C13_added_unit_is_a_new_parent.
+
+(* a router that connects to the unit which a reload has just started is a NEW source: the unit looks it up under its
+   own ingress id, which no earlier source has as parent, finds nothing and registers it afresh - it gets the register's
+   next id. None of the ids whose routes the removal withdrew is used again, so known finding C03-1 (the sticky
+   withdrawn marker of a REUSED id) does not apply to what the returning router announces. (Proviso: no source names
+   the register's next id as its parent - ids are handed out in order, C14.) *)
+Theorem C13_router_of_added_unit_is_a_new_source : forall lg st k,
+  E2eModel.is_run st = false -> E2eModel.is_want st = true -> (k < 4)%N ->
+  E2eModel.next_id_unused (PipeModel.w_reg (E2eModel.es_w (E2eModel.is_e st))) ->
+  let st1 := E2eModel.i_step lg st (E2eModel.IE E2eModel.EReload) in
+  let st2 := E2eModel.i_step lg st1 (E2eModel.IE (E2eModel.EW (PipeModel.WConnect k))) in
+  E2eModel.is_uid st1 = IngressModel.serial (PipeModel.w_reg (E2eModel.es_w (E2eModel.is_e st))) /\
+  E2eModel.i_rid st2 k = Some (IngressModel.serial (PipeModel.w_reg (E2eModel.es_w (E2eModel.is_e st1)))).
+Proof. exact E2eProofs.router_of_added_unit_is_a_new_source. Qed.
+Print Assumptions C13_router_of_added_unit_is_a_new_source.
+
+(* the property's reading of the removal: the sessions of the unit's routers are over - every route of every peer of
+   such a router is withdrawn, attributes kept, and no other route changes *)
+Theorem C13_removal_in_the_property_reading : forall st,
+  E2eModel.is_run st = true -> E2eModel.is_want st = false ->
+  let st' := E2eModel.i_step false st (E2eModel.IE E2eModel.EReload) in
+  forall f p (x : PipeModel.wid),
+    E2eModel.i_spec_lookup st' f p x =
+    if (existsb (N.eqb (fst x)) (map (fun k => k + 8 * E2eModel.is_gen st)%N [0; 1; 2; 3]%N)) && E2eModel.i_spec_session st (fst x)
+    then E2eModel.withdrawn_of (E2eModel.i_spec_lookup st f p x) else E2eModel.i_spec_lookup st f p x.
+Proof. exact E2eProofs.removal_in_the_property_reading_std. Qed.
+Print Assumptions C13_removal_in_the_property_reading.
+
+(* the code as it was (before fix 29de9ab the RIB unit unsubscribed from the sources of the previous configuration as
+   soon as it was reconfigured - usually before the unit that the same reload terminates had sent the withdrawals of its
+   sessions): on the same history the route stays ACTIVE, where the repaired code and the property say withdrawn *)
+Theorem C13_legacy_removal_leaves_routes_refuted :
+  let stl := E2eModel.i_run true (E2eModel.i_init E2eModel.SNone 0) E2eProofs.removal_witness in
+  let stf := E2eModel.i_run false (E2eModel.i_init E2eModel.SNone 0) E2eProofs.removal_witness in
+  (exists id, RibModel.rib_query (E2eModel.ru_rib (E2eModel.es_rib (E2eModel.is_e stl))) 0 1 = [(id, true, 3%N)]) /\
+  (exists id, RibModel.rib_query (E2eModel.ru_rib (E2eModel.es_rib (E2eModel.is_e stf))) 0 1 = [(id, false, 3%N)]) /\
+  PipeModel.ideal_query (PipeModel.s_rib (E2eModel.es_s (E2eModel.is_e stl))) 0 1 = [((0%N, (0, 0, 0, 0, 1, 65001, 1)%N), false, 3%N)] /\
+  PipeModel.ideal_query (PipeModel.s_rib (E2eModel.es_s (E2eModel.is_e stf))) 0 1 = [((0%N, (0, 0, 0, 0, 1, 65001, 1)%N), false, 3%N)] /\
+  E2eModel.is_run stl = false /\ E2eModel.i_session stl 0%N = None.
+Proof. exact E2eProofs.legacy_removal_leaves_routes_refuted_std. Qed.
+Print Assumptions C13_legacy_removal_leaves_routes_refuted.
+
+(* non-vacuity: a router on each ingress unit, each with a route of prefix 1; bmp-in is taken out and put back, router 0
+   returns and announces again: one bmp-in router and one bmp-in2 router are listed, the old route is withdrawn, the
+   other unit's route and the new one are active, the returning router is the new source 8 *)
+Example C13_ingress_example :
+  let st := E2eModel.i_run false (E2eModel.i_init E2eModel.SNone 0) E2eProofs.ingress_example in
+  E2eModel.is_run st = true /\ E2eModel.is_gen st = 1%N /\ E2eModel.i_listed st 0 = Some 1%N /\ E2eModel.i_listed st 1 = Some 1%N /\
+  map (fun e : N * bool * N => (snd (fst e), snd e)) (RibModel.rib_query (E2eModel.ru_rib (E2eModel.es_rib (E2eModel.is_e st))) 0 1)
+    = [(true, 5%N); (false, 3%N); (true, 4%N)] /\
+  map fst (PipeModel.w_ids (E2eModel.es_w (E2eModel.is_e st))) =
+    [(0%N, (0, 0, 0, 0, 1, 65001, 1)%N); (4%N, (0, 0, 0, 0, 1, 65001, 1)%N); (8%N, (0, 0, 0, 0, 1, 65001, 1)%N)].
+Proof. exact E2eProofs.ingress_example_ok. Qed.
